@@ -27,6 +27,9 @@ import RModel.Props.C02ren
                                every other position belongs to a rewritten occurrence (when coercion declines);
    * `sources_distinct_any_roots`  since 4d2e5a7 (`dedup_renames`) no node is scheduled twice whatever the search roots
                                (nested, repeated); `dedup_keeps_every_node`: and none is lost;
+   * `every_root_contributes`  the rename list is the de-duplicated union over ALL search roots, each with the entries of
+                               its own walk (`Gen.everyRootPlanned`): a root hidden from an enclosing root's walk still
+                               contributes (`nested_root_hidden_from_outer_walk`);
    * `destinations_distinct_any_roots`  since 0109402 (`Tables.crossRootCheck`, generated) an accepted multi-root scan has
                                pairwise distinct destinations also across roots; `cross_root_before_and_after_fix`
                                is the repaired defect (two files as search paths) on the shape without the check;
@@ -331,6 +334,24 @@ theorem cross_root_shared_destination_refused (T : Tables) (o : Opts) (vmap : Li
   unfold planMulti
   rw [hraw]
   simp [hc, hs]
+
+/-- UNION OVER ALL ROOTS.  The rename list of an accepted scan is the de-duplicated union of the per-root plans of
+    EVERY search root, each planned with the entries its own walk yields (`Gen.everyRootPlanned`: the code's loop is
+    `for root in roots`, unfiltered): whatever one root's accepted plan schedules is scheduled — also when the root
+    lies inside another root whose walk does not reach it (ignored directory, include/exclude globs) — and nothing
+    is scheduled that no root's plan contains. -/
+theorem every_root_contributes (T : Tables) (o : Opts) (vmap : List VEntry) (ess : List (List Entry)) (rs : List Ren)
+    (hfl : (o.renameFiles || o.renameDirs) = true) (h : planMulti T o vmap ess = .ok rs) :
+    (∀ es ∈ ess, ∃ rs0, planWithSearch T o vmap es = .ok rs0 ∧ ∀ r ∈ rs0, ∃ r' ∈ rs, r'.path = r.path) ∧
+    (∀ r ∈ rs, ∃ es ∈ ess, ∃ rs0, planWithSearch T o vmap es = .ok rs0 ∧ r ∈ rs0) := by
+  obtain ⟨raw, hraw, hrs⟩ := planMulti_ok h
+  subst hrs
+  constructor
+  · intro es hes
+    obtain ⟨rs0, h0, hsub⟩ := planLoop_complete T o vmap hfl ess raw hraw es hes
+    exact ⟨rs0, h0, fun r hr => dedupRens_cover raw r (hsub r hr)⟩
+  · intro r hr
+    exact planLoop_mem T o vmap ess raw hraw r ((dedupRens_sublist raw).subset hr)
 
 /-- the guards of `C02ren.renamePhase_ok` hold for every plan the planner accepts, for any list of search roots -/
 theorem accepted_guards (T : Tables) (o : Opts) (vmap : List VEntry) (t : Tree) (roots : List Path) (rs : List Ren)
@@ -646,6 +667,24 @@ theorem overlapping_roots_before_and_after_fix :
     planRenames T0 o0 vm0 t [[b!"proj"], [b!"proj"]] = .ok [r] ∧
     planRenames T0 o0 vm0 t [[b!"proj", b!"sub"], [b!"proj"]] = .ok [r] ∧
     (applyPlan t ⟨[], [r]⟩).outcome = .ok := by decide +kernel
+
+/-- what the walk of the root `proj` yields when `proj/build` is ignored, and what the walk of `proj/build/foo_bar_gen` yields -/
+def exOuterWalk : List Entry :=
+  [([b!"proj"], .dir), ([b!"proj", b!"foo_bar.txt"], .file), ([b!"proj", b!"build"], .dir)]
+def exInnerWalk : List Entry :=
+  [([b!"proj", b!"build", b!"foo_bar_gen"], .dir), ([b!"proj", b!"build", b!"foo_bar_gen", b!"foo_bar.rs"], .file)]
+
+/-- the seeded shape "outermost roots only" would lose a root that the enclosing root's walk does not reach: the
+    inner root `proj/build/foo_bar_gen` lies below `proj/build`, which the outer root's walk skips (ignored), so the
+    outer entry list lacks it; planning all roots schedules it and its content, planning the outer root alone
+    schedules neither -/
+theorem nested_root_hidden_from_outer_walk :
+    planMulti T0 o0 vm0 [exOuterWalk, exInnerWalk] =
+      .ok [⟨[b!"proj", b!"foo_bar.txt"], [b!"proj", b!"baz_qux.txt"], .file⟩,
+           ⟨[b!"proj", b!"build", b!"foo_bar_gen"], [b!"proj", b!"build", b!"baz_qux_gen"], .dir⟩,
+           ⟨[b!"proj", b!"build", b!"foo_bar_gen", b!"foo_bar.rs"], [b!"proj", b!"build", b!"foo_bar_gen", b!"baz_qux.rs"], .file⟩] ∧
+    planMulti T0 o0 vm0 [exOuterWalk] = .ok [⟨[b!"proj", b!"foo_bar.txt"], [b!"proj", b!"baz_qux.txt"], .file⟩] := by
+  decide +kernel
 
 /-- BEFORE / AFTER 0109402 (finding `cross_root_shared_destination`, repaired): two FILES given as search paths,
     `foo_bar.txt` and `foo-bar.txt`, replacement `baz`.  Every root is conflict-free on its own; without the check
